@@ -647,8 +647,9 @@ def _r2_jacobian(ctx):
                 jdefs[s.targets[0].id] = s
         if matrix_idiom is not None:
             jdefs = synth_defs
-        if len(jdefs) != 9:
-            raise AnalysisError("%s: expected 9 Jacobian entries, found %d" % (shape, len(jdefs)))
+        in_place = sum(1 for r in rows for c in r.elts if not isinstance(c, ast.Name))       # entries written into the literal
+        if len(jdefs) + in_place != 9:
+            raise AnalysisError("%s: expected 9 Jacobian entries, found %d" % (shape, len(jdefs) + in_place))
         # coordinate symbols: the three names unpacked from <frame>.iloc[a, :3] are x_{a+1},1..3 (by position)
         canon = {}
         n_rows = 0
@@ -692,22 +693,24 @@ def _r2_jacobian(ctx):
         for i in range(3):
             for j in range(3):
                 cell = rows[i].elts[j]
-                if not isinstance(cell, ast.Name) or cell.id not in jdefs:
-                    raise AnalysisError("%s: Jacobian cell (%d,%d) is not a named entry" % (shape, i, j))
-                s = jdefs[cell.id]
+                if isinstance(cell, ast.Name) and cell.id not in jdefs:
+                    raise AnalysisError("%s: Jacobian cell (%d,%d) is not a defined entry" % (shape, i, j))
+                s = jdefs[cell.id] if isinstance(cell, ast.Name) else asm[0]
+                cexpr = s.value if isinstance(cell, ast.Name) else cell
+                cname = cell.id if isinstance(cell, ast.Name) else "entry %d,%d of the literal" % (i + 1, j + 1)
                 try:
-                    got = to_nf(s.value, atom=_atom_sym)
+                    got = to_nf(cexpr, atom=_atom_sym)
                 except NFUnsupported as e:
-                    raise AnalysisError("%s: %s outside the normal-form fragment: %s" % (shape, cell.id, e))
+                    raise AnalysisError("%s: %s outside the normal-form fragment: %s" % (shape, cname, e))
                 want = RF.const(0)
                 for a in range(n_nodes):
                     want = want + RF.sym("x%d%d" % (a + 1, i + 1)) * dphi[(a, j)]
                 if got == want:
-                    ctx.holds(comp, s, "%s: J[%d,%d] (%s) == sum_a x_a,%d * dphi_a/dxi_%d" % (shape, i + 1, j + 1, cell.id, i + 1, j + 1))
+                    ctx.holds(comp, s, "%s: J[%d,%d] (%s) == sum_a x_a,%d * dphi_a/dxi_%d" % (shape, i + 1, j + 1, cname, i + 1, j + 1))
                 else:
                     ctx.violated(comp, s, "%s: Jacobian entry (%d,%d) = %s differs from sum_a x_a,%d dphi_a/dxi_%d of the "
                                  "ansatz functions: the gradient is no longer exact on linear fields" %
-                                 (shape, i + 1, j + 1, cell.id, i + 1, j + 1))
+                                 (shape, i + 1, j + 1, cname, i + 1, j + 1), text="%s J%d%d" % (shape, i + 1, j + 1))
         # contraction index
         sparams = [q for q in single.params if q != "self"]
         jinv_name = sparams[-1]
@@ -786,23 +789,32 @@ def _r3_hotspot(ctx):
         raise AnalysisError("HotSpot.calc: threshold comparison not found")
     c = thr[0].value
     mask = thr[0].targets[0].id
-    maxdef = [s for s in walk_function(calc.node) if isinstance(s, ast.Assign) and isinstance(s.targets[0], ast.Name) and
-              any(isinstance(x.func, ast.Attribute) and x.func.attr == "max" for x in calls_in(s.value))]
-    maxname = maxdef[0].targets[0].id if maxdef else None
-    if maxname is not None:
-        alld = [s for s in walk_function(calc.node) if isinstance(s, ast.Assign) and isinstance(s.targets[0], ast.Name) and
-                s.targets[0].id == maxname]
-        if len(alld) != len([d_ for d_ in maxdef if d_.targets[0].id == maxname]):
-            maxname = None              # some definition of the reference value is not a maximum
-    try:
-        rhs = to_nf(c.comparators[0], atom=_atom_sym)
-        ok_rhs = maxname is not None and rhs == to_nf(parse_expr("%s*%s" % (frac, maxname)), atom=_atom_sym)
-    except NFUnsupported:
-        ok_rhs = False
-    if isinstance(c.ops[0], ast.GtE) and ok_rhs:
+    def is_max(e, depth=0):
+        """the reference value: a .max() of the values, in every alternative (conditional expression, several definitions)"""
+        if isinstance(e, ast.IfExp):
+            return is_max(e.body, depth) and is_max(e.orelse, depth)
+        if isinstance(e, ast.Call) and isinstance(e.func, ast.Attribute) and e.func.attr == "max":
+            return True
+        if isinstance(e, ast.Call) and call_name(e) in ("np.max", "np.amax", "max", "np.nanmax"):
+            return True
+        if isinstance(e, ast.Name) and depth < 4:
+            ds = [s_.value for s_ in walk_function(calc.node) if isinstance(s_, ast.Assign) and
+                  any(isinstance(t_, ast.Name) and t_.id == e.id for t_ in s_.targets)]
+            return bool(ds) and all(is_max(d_, depth + 1) for d_ in ds)
+        return False
+    # orientation-free: big >= small
+    big = small = None
+    if len(c.ops) == 1 and isinstance(c.ops[0], ast.GtE):
+        big, small = c.left, c.comparators[0]
+    elif len(c.ops) == 1 and isinstance(c.ops[0], ast.LtE):
+        big, small = c.comparators[0], c.left
+    ok_rhs = False
+    if small is not None and isinstance(small, ast.BinOp) and isinstance(small.op, ast.Mult):
+        for f_, m_ in ((small.left, small.right), (small.right, small.left)):
+            if isinstance(f_, ast.Name) and f_.id == frac and is_max(m_):
+                ok_rhs = True
+    if big is not None and ok_rhs:
         ctx.holds(calc, thr[0], "entries with value >= %s*max are hot spots (non-strict)" % frac)
-    elif isinstance(c.ops[0], ast.LtE) and False:
-        pass
     else:
         ctx.violated(calc, thr[0], "hot-spot threshold is %s; it must label exactly the entries at or above %s*max "
                      "(non-strict comparison)" % (norm_text(c), frac))
